@@ -80,13 +80,29 @@ func summarizeFile(name, src string) map[string]interface{} {
 		imports = append(imports, [2]string{alias, p})
 	}
 	res["imports"] = imports
+	importNames := map[string]bool{}
+	inames := []string{}
+	for _, im := range imports {
+		n := im[0]
+		if n == "" {
+			parts := strings.Split(im[1], "/")
+			n = parts[len(parts)-1]
+			if len(parts) >= 2 && len(n) >= 2 && n[0] == 'v' && strings.Trim(n[1:], "0123456789") == "" {
+				n = parts[len(parts)-2]
+			}
+			n = strings.TrimSuffix(strings.TrimPrefix(n, "go-"), "-go")
+		}
+		importNames[n] = true
+		inames = append(inames, n)
+	}
+	res["import_names"] = inames
 
 	// qualifiers used: X of X.Sel where X is an identifier not resolved in
 	// the file (package names are not file-scope objects for go/parser).
 	quals := map[string]bool{}
 	ast.Inspect(f, func(n ast.Node) bool {
 		if se, ok := n.(*ast.SelectorExpr); ok {
-			if id, ok := se.X.(*ast.Ident); ok && id.Obj == nil {
+			if id, ok := se.X.(*ast.Ident); ok && (id.Obj == nil || importNames[id.Name]) {
 				quals[id.Name] = true
 			}
 		}
@@ -177,7 +193,83 @@ func summarizeFile(name, src string) map[string]interface{} {
 			recv := exprStr(d.Recv.List[0].Type)
 			recv = strings.TrimPrefix(recv, "*")
 			decls = append(decls, [2]string{"method", recv + "." + d.Name.Name})
-			methods = append(methods, summarizeMethod(recv, d))
+			mm := summarizeMethod(recv, d)
+			mq := map[string]bool{}
+			ast.Inspect(d, func(n ast.Node) bool {
+				if se, ok := n.(*ast.SelectorExpr); ok {
+					if id, ok := se.X.(*ast.Ident); ok && importNames[id.Name] {
+						mq[id.Name] = true
+					}
+				}
+				return true
+			})
+			mql := []string{}
+			for k := range mq {
+				mql = append(mql, k)
+			}
+			sort.Strings(mql)
+			mm["quals"] = mql
+			// package names that are really shadowed: a receiver/parameter name used as a
+			// qualifier in the body, or a local used as a qualifier after its declaration
+			shadowed := map[string]bool{}
+			if d.Body != nil {
+				scopeStart := map[string]token.Pos{}
+				if d.Recv != nil {
+					for _, n := range d.Recv.List[0].Names {
+						scopeStart[n.Name] = d.Body.Pos()
+					}
+				}
+				if d.Type.Params != nil {
+					for _, f := range d.Type.Params.List {
+						for _, n := range f.Names {
+							scopeStart[n.Name] = d.Body.Pos()
+						}
+					}
+				}
+				for _, st := range d.Body.List {
+					switch st := st.(type) {
+					case *ast.DeclStmt:
+						if gd, ok := st.Decl.(*ast.GenDecl); ok {
+							for _, sp := range gd.Specs {
+								if vs, ok := sp.(*ast.ValueSpec); ok {
+									for _, n := range vs.Names {
+										if _, seen := scopeStart[n.Name]; !seen {
+											scopeStart[n.Name] = vs.End()
+										}
+									}
+								}
+							}
+						}
+					case *ast.AssignStmt:
+						if st.Tok == token.DEFINE {
+							for _, l := range st.Lhs {
+								if id, ok := l.(*ast.Ident); ok {
+									if _, seen := scopeStart[id.Name]; !seen {
+										scopeStart[id.Name] = st.End()
+									}
+								}
+							}
+						}
+					}
+				}
+				ast.Inspect(d.Body, func(n ast.Node) bool {
+					if se, ok := n.(*ast.SelectorExpr); ok {
+						if id, ok := se.X.(*ast.Ident); ok && importNames[id.Name] {
+							if p, ok := scopeStart[id.Name]; ok && id.Pos() >= p {
+								shadowed[id.Name] = true
+							}
+						}
+					}
+					return true
+				})
+			}
+			sh := []string{}
+			for k := range shadowed {
+				sh = append(sh, k)
+			}
+			sort.Strings(sh)
+			mm["shadowed"] = sh
+			methods = append(methods, mm)
 		}
 	}
 	res["decls"] = decls
